@@ -272,6 +272,21 @@ func register[T any](s spec[T]) {
 		}
 		return
 	}
+	// sameDecoded: two printed forms stand for the same value (decoded and rendered canonically;
+	// for writer-only types: the same element tree up to the order of differently named siblings)
+	sameDecoded := func(a, b []byte) bool {
+		if s.dec && s.canon != nil {
+			da, pa, ea := unmarshal(a)
+			db, pb, eb := unmarshal(b)
+			if pa != "" || pb != "" || ea != nil || eb != nil {
+				return pa == pb && (ea == nil) == (eb == nil) && ea != nil
+			}
+			return s.canon(da) == s.canon(db)
+		}
+		ta, ea := reparse(a)
+		tb, eb := reparse(b)
+		return ea == nil && eb == nil && common.EncToks(canonOrder(ta)) == common.EncToks(canonOrder(tb))
+	}
 	e.unmarshal = func(b []byte) (string, error) {
 		if !s.dec {
 			return "", nil
@@ -418,8 +433,40 @@ func register[T any](s spec[T]) {
 			}
 		}
 		valid := s.valid == nil || s.valid(&v)
+		canonNow := func() (d string) {
+			if s.canon != nil {
+				defer func() { _ = recover() }()
+				d = s.canon(&v)
+			}
+			return d
+		}
+		canon0 := canonNow()
 		ps := paths(&v)
 		r.Case(line, true, class+"/"+s.name)
+		// a second call of every writer path on the same value (writers are reads: they neither
+		// consume nor change the value) must print what the first call printed
+		if valid {
+			for i, p2 := range paths(&v) {
+				p := ps[i]
+				if p.panicked != "" || p.err != nil {
+					continue
+				}
+				switch {
+				case p2.panicked != "":
+					r.Fail("no-panic", s.name+"/"+p.name+"/second-call/"+panicClass(p2.panicked), lines, "the second call panicked: "+p2.panicked)
+				case p2.err == nil && string(p2.out) == string(p.out):
+				case p2.err == nil && sameDecoded(p.out, p2.out):
+					// printed differently (children the type keeps in a map), but the same value
+				default:
+					r.Fail("same-value", s.name+"/second-call/"+p.name, lines,
+						fmt.Sprintf("%s called twice on the same value: first %q, then %q err=%v", p.name, p.out, p2.out, p2.err))
+				}
+			}
+			if c1 := canonNow(); c1 != canon0 {
+				r.Fail("same-value", s.name+"/changed-by-writer/"+firstDiff(canon0, c1), lines,
+					fmt.Sprintf("the writer paths changed the value they were called on\nbefore %s\nafter  %s", canon0, c1))
+			}
+		}
 		describe := func() string {
 			d := ""
 			if s.canon != nil {
@@ -442,6 +489,9 @@ func register[T any](s spec[T]) {
 					if repr {
 						r.Line(bl, common.B(balancedToks(p.toks)))
 						c.skelLine(s.name+".TokenReader", p.toks)
+						// the model of what the encoder prints for these raw tokens (Model/Reencode.lean)
+						// against the strict reading of what it did print
+						r.Line("wf "+common.EncToks(p.toks), common.B(wellFormed(p.out) == nil))
 					}
 					if !balancedToks(p.toks) {
 						r.Fail("well-formed", s.name+"/TokenReader/unbalanced", append(lines, r.Prop+" "+bl), "token stream is not balanced\n"+describe())
